@@ -517,7 +517,7 @@ theorem kvt_deleteServicePost (s : State) (node id : String) (v : Svc) : kvt (de
   rw [deleteServicePost_eq]
   split <;> simp [kvt, dspMid]
 
-theorem list_closed (hp : p.head? ≠ some 0) (s0 : State) : PrimClosed i (TreeOk p) (fun _ _ _ => True) (ListStep p i s0) where
+theorem list_closed (hp : p.head? ≠ some 0) (s0 : State) : PrimClosed i (TreeOk p) (fun _ _ _ => True) (fun _ => True) (ListStep p i s0) where
   kvInsert s e he h := list_kvInsert e he h
   kvDelete s s' k hr h := list_kvDelete hp hr h
   kvDeleteTree s d hd h := list_kvDeleteTree d hd h
@@ -532,17 +532,18 @@ theorem list_closed (hp : p.head? ≠ some 0) (s0 : State) : PrimClosed i (TreeO
   insertSession s x h := h.ofTbl (tbl_insertSession s x) rfl rfl
   pqSet s s' id sess hr h := h.ofTbl (tbl_pqSet hr) (congrArg Prod.fst (kvt_pqSet hr)) (congrArg Prod.snd (kvt_pqSet hr))
   pqDelete s id h := h.ofTbl (tbl_pqDelete s id) (congrArg Prod.fst (kvt_pqDelete s id)) (congrArg Prod.snd (kvt_pqDelete s id))
-  nodeInsert s n hn h :=
+  nodeInsert s n hn _ h :=
     h.ofTbl (tbl_nodeInsert s n hn) (congrArg Prod.fst (kvt_nodeInsert s n)) (congrArg Prod.snd (kvt_nodeInsert s n))
+  nodeNames _ _ _ _ := trivial
   deleteCheckPre s node id x _ h :=
     h.ofTbl (tbl_deleteCheckPre s node id x) (congrArg Prod.fst (kvt_deleteCheckPre s node id x))
       (congrArg Prod.snd (kvt_deleteCheckPre s node id x))
-  deleteServicePost s node id v h :=
+  deleteServicePost s node id v _ h :=
     h.ofTbl (tbl_deleteServicePost s node id v) (congrArg Prod.fst (kvt_deleteServicePost s node id v))
       (congrArg Prod.snd (kvt_deleteServicePost s node id v))
   deleteNodePost s name h := h.ofTbl (tbl_deleteNodePost s name) rfl rfl
   bumpServiceIdx s name h := h.ofTbl (tbl_bump s name) rfl rfl
-  svcInsert s v hv _ h := h.ofTbl (tbl_svcInsert s v hv) (by simp [svcInsert]) (by simp [svcInsert])
+  svcInsert s v hv _ _ h := h.ofTbl (tbl_svcInsert s v hv) (by simp [svcInsert]) (by simp [svcInsert])
 
 /-! ### the bound alone is closed under everything -/
 
@@ -553,7 +554,7 @@ theorem KvBound.frame {s s' : State} (h : KvBound i s) (hk : s'.kvs = s.kvs) (ht
 theorem KvBound.ofTbl {s s' : State} (h : KvBound i s) (t : Tbl1 i s s') (hk : kvt s' = kvt s) : KvBound i s' :=
   h.frame (congrArg Prod.fst hk) (congrArg Prod.snd hk) (t.ops.le h.idx)
 
-theorem bound_closed (i : Nat) : PrimClosed i (fun _ => True) (fun _ _ _ => True) (KvBound i) where
+theorem bound_closed (i : Nat) : PrimClosed i (fun _ => True) (fun _ _ _ => True) (fun _ => True) (KvBound i) where
   kvInsert s e he h := by
     refine ⟨(tbl_kvInsert s e he).ops.le h.idx, ?_, h.tombs⟩
     intro x hx
@@ -620,17 +621,18 @@ theorem bound_closed (i : Nat) : PrimClosed i (fun _ => True) (fun _ _ _ => True
   insertSession s x h := h.ofTbl (tbl_insertSession s x) rfl
   pqSet s s' id sess hr h := h.ofTbl (tbl_pqSet hr) (kvt_pqSet hr)
   pqDelete s id h := h.ofTbl (tbl_pqDelete s id) (kvt_pqDelete s id)
-  nodeInsert s n hn h := h.ofTbl (tbl_nodeInsert s n hn) (kvt_nodeInsert s n)
+  nodeInsert s n hn _ h := h.ofTbl (tbl_nodeInsert s n hn) (kvt_nodeInsert s n)
+  nodeNames _ _ _ _ := trivial
   deleteCheckPre s node id x _ h := h.ofTbl (tbl_deleteCheckPre s node id x) (kvt_deleteCheckPre s node id x)
-  deleteServicePost s node id v h := h.ofTbl (tbl_deleteServicePost s node id v) (kvt_deleteServicePost s node id v)
+  deleteServicePost s node id v _ h := h.ofTbl (tbl_deleteServicePost s node id v) (kvt_deleteServicePost s node id v)
   deleteNodePost s name h := h.ofTbl (tbl_deleteNodePost s name) rfl
   bumpServiceIdx s name h := h.ofTbl (tbl_bump s name) rfl
-  svcInsert s v hv _ h := h.ofTbl (tbl_svcInsert s v hv) (by simp [kvt, svcInsert])
+  svcInsert s v hv _ _ h := h.ofTbl (tbl_svcInsert s v hv) (by simp [kvt, svcInsert])
 
 /-- every stored index is bounded by the index of the last applied command -/
 theorem kvBound_step {m : Nat} {s : State} (c : Cmd) (h : KvBound m s) (hmi : m ≤ i) : KvBound i (apply s i c).1 := by
   by_cases hc : ∀ u, c ≠ .reap u
-  · exact pc_apply (bound_closed i) c hc (fun _ _ => trivial) (fun _ _ => trivial) (h.mono hmi)
+  · exact pc_apply (bound_closed i) c hc (fun _ _ => trivial) (fun _ _ => trivial) (fun _ _ => trivial) (h.mono hmi)
   · have : ∃ u, c = .reap u := by
       cases c <;> simp at hc ⊢
     obtain ⟨u, rfl⟩ := this
@@ -640,6 +642,6 @@ theorem kvBound_step {m : Nat} {s : State} (c : Cmd) (h : KvBound m s) (hmi : m 
 /-- the list query across one command (not a reap) whose tree deletes are not above the prefix -/
 theorem list_apply (hp : p.head? ≠ some 0) {m : Nat} {s : State} (c : Cmd) (hc : ∀ u, c ≠ .reap u)
     (hT : ∀ d ∈ c.trees, TreeOk p d) (h : KvBound m s) (hmi : m ≤ i) : ListStep p i s (apply s i c).1 :=
-  pc_apply (list_closed hp s) c hc hT (fun _ _ => trivial) ⟨h.mono hmi, Or.inl ⟨rfl, rfl⟩⟩
+  pc_apply (list_closed hp s) c hc hT (fun _ _ => trivial) (fun _ _ => trivial) ⟨h.mono hmi, Or.inl ⟨rfl, rfl⟩⟩
 
 end CV.Store
